@@ -39,3 +39,63 @@ def handleExefs (cmd : String) (args : List SExp) : String :=
   | _, _ => "bad-args"
 
 end Pyctr
+
+namespace Pyctr
+open Tmd
+
+def renderTmd (t : Tmd.T) : String :=
+  "(t " ++ toString t.sigType ++ " " ++ toHexW t.signature ++ " " ++ toHexW t.issuer ++ " " ++
+  toString t.version ++ " " ++ toString t.caCrl ++ " " ++ toString t.signerCrl ++ " " ++ toString t.reserved1 ++ " " ++
+  toHexW t.systemVersion ++ " " ++ toHexW t.titleId ++ " " ++ toHexW t.titleType ++ " " ++ toHexW t.groupId ++ " " ++
+  toString t.saveSize ++ " " ++ toString t.srlSaveSize ++ " " ++ toHexW t.reserved2 ++ " " ++ toString t.srlFlag ++ " " ++
+  toHexW t.reserved3 ++ " " ++ toHexW t.accessRights ++ " (" ++ toString t.titleVersion.major ++ " " ++
+  toString t.titleVersion.minor ++ " " ++ toString t.titleVersion.micro ++ ") " ++ toHexW t.bootCount ++ " " ++
+  toHexW t.padding ++ " (" ++
+  " ".intercalate (t.infoRecords.map fun r => "(" ++ toString r.indexOffset ++ " " ++ toString r.commandCount ++ " " ++ toHexW r.hash ++ ")") ++
+  ") (" ++
+  " ".intercalate (t.chunkRecords.map fun r => "(" ++ toHexW r.id ++ " " ++ toString r.cindex ++ " " ++ toString r.type.toInt ++ " " ++ toString r.size ++ " " ++ toHexW r.hash ++ ")") ++
+  "))"
+
+def tmdOfSExp : SExp → Option Tmd.T
+  | .list [.atom "t", st, sg, iss, v, ca, sc, r1, sv, tid, tt, gid, ss, srl, r2, sf, r3, ar,
+           .list [ma, mi, mc], bc, pd, .list irs, .list crs] => do
+    let irs ← irs.mapM fun
+      | .list [a, b, h] => do pure (⟨← a.nat?, ← b.nat?, ← h.bytes?⟩ : InfoRecord)
+      | _ => none
+    let crs ← crs.mapM fun
+      | .list [i, c, f, s, h] => do
+          pure (⟨← i.bytes?, ← c.nat?, TypeFlags.ofInt (← f.nat?), ← s.nat?, ← h.bytes?⟩ : ChunkRecord)
+      | _ => none
+    pure { sigType := ← st.nat?, signature := ← sg.bytes?, issuer := ← iss.bytes?, version := ← v.nat?,
+           caCrl := ← ca.nat?, signerCrl := ← sc.nat?, reserved1 := ← r1.nat?, systemVersion := ← sv.bytes?,
+           titleId := ← tid.bytes?, titleType := ← tt.bytes?, groupId := ← gid.bytes?, saveSize := ← ss.nat?,
+           srlSaveSize := ← srl.nat?, reserved2 := ← r2.bytes?, srlFlag := ← sf.nat?, reserved3 := ← r3.bytes?,
+           accessRights := ← ar.bytes?, titleVersion := ⟨← ma.nat?, ← mi.nat?, ← mc.nat?⟩,
+           bootCount := ← bc.bytes?, padding := ← pd.bytes?, infoRecords := irs, chunkRecords := crs }
+  | _ => none
+
+def handleTmd (cmd : String) (args : List SExp) : String :=
+  match cmd, args with
+  | "tmd-load", [b, v] =>
+    match b.bytes?, v.nat? with
+    | some b, some v => match Tmd.load Prim.sha256 (v == 1) b with
+      | .ok t => renderTmd t
+      | .error e => "e:" ++ e.name
+    | _, _ => "bad-args"
+  | "tmd-roundtrip", [b, v] =>
+    match b.bytes?, v.nat? with
+    | some b, some v => match Tmd.load Prim.sha256 (v == 1) b with
+      | .ok t => match Tmd.serialize Prim.sha256 t with
+        | some o => toHexW o
+        | none => "e:struct.error"
+      | .error e => "e:" ++ e.name
+    | _, _ => "bad-args"
+  | "tmd-ser", [t] =>
+    match tmdOfSExp t with
+    | some t => match Tmd.serialize Prim.sha256 t with
+      | some o => toHexW o
+      | none => "e:struct.error"
+    | none => "bad-args"
+  | _, _ => "bad-args"
+
+end Pyctr
